@@ -3011,6 +3011,11 @@ impl HnswBackend {
                 .collect();
         }
 
+        // scan() takes doc_store.read() itself. Re-acquiring it while still holding the
+        // guards above is a recursive read: with a writer queued on doc_store in between,
+        // this thread waits behind the writer and the writer waits for this thread.
+        drop(meta_index);
+        drop(store);
         self.scan(|meta| metadata_filter::matches(filter, meta))
     }
 
